@@ -260,6 +260,8 @@ impl<'a> View<'a> {
             av.graceful = matches!(av.task_end, Some((_, TaskEnd::Done)))
                 && !timeout_failed
                 && av.stopped_exit.is_some()
+                // a lifecycle callback that was entered and never left (it panicked) is a failure
+                && !cbs.iter().any(|c| c.actor == a && c.exit.is_none())
                 && !out.hist.iter().any(|e| {
                     matches!(&e.kind, EvKind::Note(n) if n.starts_with(&format!("started-err actor={a} ")))
                 });
@@ -371,7 +373,7 @@ impl<'a> View<'a> {
                         upd(*actor, s);
                     }
                 }
-                Fault::HandlerPanic { actor, .. } | Fault::StopPanic { actor } | Fault::StartFail { actor, .. } => {
+                Fault::HandlerPanic { actor, .. } | Fault::StopPanic { actor } | Fault::FinishPanic { actor } | Fault::StartFail { actor, .. } => {
                     if let Some(s) = self.actors.get(*actor).and_then(|a| a.spawned) {
                         upd(*actor, s);
                     }
